@@ -162,6 +162,19 @@ def pair_cases(ck):
         sug = head + 'Nst%d ::= SEQUENCE { %s, pick CHOICE { %s } }\nEND\n' % (k, mems_s, alts_s)
         exp = head + 'Nst%d ::= SEQUENCE { %s, pick CHOICE { %s } }\nEND\n' % (k, mems_e, alts_e)
         out.append(('components-of-nested', ['Nst%d' % k], sug, exp))
+        # G: one or two COMPONENTS OF at the end of the root of an extensible type whose referenced types are extensible too: only
+        #    their roots are copied, in the order of the notations, and the type's own additions stay additions
+        r1, r2 = '%sRa%d' % (p, k), '%sRb%d' % (r, k)
+        two = rng.random() < 0.6
+        a1 = ', ..., p9 NULL' if rng.random() < 0.5 else ''
+        a2 = ', ..., [[ q8 NULL, q9 BOOLEAN ]]' if rng.random() < 0.5 else ''
+        head = ('Mh%d DEFINITIONS AUTOMATIC TAGS ::= BEGIN\n%s ::= SEQUENCE { p1 INTEGER, p2 BOOLEAN OPTIONAL%s }\n%s ::= SEQUENCE { q1 IA5String%s }\n'
+                % (k, r1, a1, r2, a2))
+        own = 'o1 NULL, o2 INTEGER (0..%d)' % rng.randint(1, 200)
+        adds = rng.choice([', ...', ', ..., e1 BOOLEAN', ', ..., e1 BOOLEAN, [[ e2 NULL, e3 INTEGER ]]'])
+        sug = head + '%sExt%d ::= SEQUENCE { %s, COMPONENTS OF %s%s%s }\nEND\n' % (q, k, own, r1, (', COMPONENTS OF %s' % r2) if two else '', adds)
+        exp = head + '%sExt%d ::= SEQUENCE { %s, p1 INTEGER, p2 BOOLEAN OPTIONAL%s%s }\nEND\n' % (q, k, own, ', q1 IA5String' if two else '', adds)
+        out.append(('components-of-before-marker', ['%sExt%d' % (q, k)], sug, exp))
     return out
 
 
@@ -185,6 +198,10 @@ def components_cases(ck):
             if i > 0:
                 pos = rng.choice([0, len(items), rng.randint(0, len(items))])
                 items.insert(pos, ('of', names[i - 1]))
+                if i > 1 and rng.random() < 0.35:
+                    # a second notation in the same list, to a type further down the chain
+                    pos2 = rng.choice([0, len(items), rng.randint(0, len(items))])
+                    items.insert(pos2, ('of', names[rng.randint(0, i - 2)]))
             defs.append((nm, is_seq, items))
         rng.shuffle(defs)
         out.append(defs)
@@ -219,11 +236,20 @@ def classify(defs, name, obs, exp):
         reach.append(n)
         todo += [x[1] for x in d[n][2] if x[0] == 'of']
     non_trailing = any(x[0] == 'of' and any(y[0] == 'own' for y in d[n][2][i + 1:]) for n in reach for i, x in enumerate(d[n][2]))
-    if sorted(obs) == sorted(exp):
-        return K_APPENDED if non_trailing else None
-    # (the class K_CHAIN -- a chain whose middle type is linked after the including one -- was repaired in /repo: the fields of a
-    #  chain are a permutation of its expansion at any depth and in any name order, C09_pass_acyclic_chain for trailing entries)
+    # the known departure, exactly: own components first, then what each notation stands for, in the order of the notations
+    if non_trailing and obs == appended_py(defs, name):
+        return K_APPENDED
+    # (the classes K_SET and K_CHAIN were repaired in /repo; a chain with trailing entries is proved right, C09_pass_acyclic_chain)
     return None
+
+
+def appended_py(defs, name, seen=()):
+    d = {x[0]: x for x in defs}[name]
+    out = [it[1] for it in d[2] if it[0] == 'own']
+    for it in d[2]:
+        if it[0] == 'of' and it[1] not in seen and it[1] != name:
+            out += appended_py(defs, it[1], seen + (name,))
+    return out
 
 
 def expand_py(defs, name, seen=()):
